@@ -44,9 +44,10 @@ Step ==
               LET x == E!TxEffect(e.tree, Start(e)) IN
               /\ tainted' = (tainted \/ x.corner)
               /\ G' = [nset |-> x.S.nset, sink |-> x.S.sink]
-              /\ \/ tainted \/ x.corner
-                 \/ Report(l, TxChecks(e, x),
-                           [id |-> e.id, expected |-> [halt |-> x.halt, notes |-> x.S.notes, st |-> x.S.st, bal |-> x.S.bal]])
+              /\ IF x.corner THEN Report(l, {"Corner"}, [id |-> e.id])
+                 ELSE \/ tainted
+                      \/ Report(l, TxChecks(e, x),
+                                [id |-> e.id, expected |-> [halt |-> x.halt, notes |-> x.S.notes, st |-> x.S.st, bal |-> x.S.bal]])
          [] e.event = "block" ->
               /\ G' = [nset |-> e.nset, sink |-> e.sink] /\ tainted' = FALSE
               /\ \/ tainted
